@@ -104,6 +104,7 @@ class _TreeDist(object):
             elif elem.find(")") > -1:
                 lang = elem.replace(")", "")
                 lang = lang.split(":")[0].strip()
+                lang = lang.replace(" ", "_").replace("'", "")
                 if lang in hash_lang:
                     temp_stack.append(hash_lang[lang])
                 else:
@@ -117,6 +118,7 @@ class _TreeDist(object):
                     partition_list.append(p1)
             else:
                 lang = elem.split(":")[0]
+                lang = lang.replace(" ", "_").replace("'", "")
                 if lang in hash_lang:
                     temp_stack.append(hash_lang[lang])
                 else:
